@@ -439,6 +439,11 @@ func runChild(p Params) (res Result) {
 			// kernel-path notifications still in flight plus a report queue kept full would be C18's
 			// loop->mux->loop wedge: let the listener finish first, the flood uses the direct path only
 			flood.Store(true)
+			// a producer may be past the flood check on its way to the kernel path: give it a moment, then
+			// pass through the kernel lock once so that nothing is mid-write when the flush starts
+			time.Sleep(2 * time.Millisecond)
+			kmu.Lock()
+			kmu.Unlock() //nolint:staticcheck
 			d.K.Flush(5 * time.Second)
 			time.Sleep(3 * time.Millisecond)
 		}
@@ -524,6 +529,13 @@ func runChild(p Params) (res Result) {
 	}
 	stopAll.Store(true)
 	close(expiryWatch)
+	if res.Inconclusive != "" && res.Key == "" {
+		// the server never stopped (C18's wedge): producers inside NotifySessReport cannot come back either;
+		// nothing about Stop() can be concluded from this run, leave the process without them
+		res.TimerExpiries = timerExp.Load()
+		res.Posted = posted.Load()
+		return
+	}
 	swg.Wait()
 	// every report producer that was inside NotifySessReport when the server stopped must come back
 	pdone := make(chan struct{})
